@@ -159,7 +159,10 @@ def size_perturbation_probe(ctx_, work, rng, nb):
         r = l2data.build_and_run(ctx_["idlc"], os.path.join(work, "pertdata%d" % b), ms, chain=(b % 2 == 1), extra_env={"L2_PERTURB": "1"})
         idl = l2data.render_idl(ms, b % 2 == 1)
         if r.get("stage") != "run" or r.get("rc") != 0:
-            fails.append({"property": ctx_["prop"], "idl": idl, "what": "the nine-pairing data program does not build or aborts under size perturbations (%s): %s" % (r.get("stage"), (r.get("err") or "")[-600:])})
+            f_ = {"property": ctx_["prop"], "idl": idl, "what": "the nine-pairing data program does not build or aborts under size perturbations (%s): %s" % (r.get("stage"), (r.get("err") or "")[-600:])}
+            if re.search(r"misaligned address 0x[0-9a-f]+ for type 'struct b[io]'", r.get("err") or ""):
+                f_["known_class"] = "K_bundle_alignment"
+            fails.append(f_)
             continue
         V = l2data.perturb_verdicts(r["out"])
         for caller in ("c", "cpp", "rust"):
